@@ -552,7 +552,7 @@ def check_additions(run, pkg, wtoks):
         tr = S.Translator(atom_of)
         try:
             g = tr.tr(fr[2][0])
-            okf = not tr.atoms and any(sp.simplify(g - f_) == 0 for f_ in (sp.Function("builtins.int")(Ln / (N + 9)), sp.floor(Ln / (N + 9)), sp.Function("builtins.int")(Ln // (N + 9))))
+            okf = not tr.atoms and any(sp.simplify(g - f_) == 0 for f_ in (S.PyInt(Ln / (N + 9)), sp.floor(Ln / (N + 9)), S.PyInt(Ln // (N + 9))))
             if not okf:
                 # Len // (N+9)
                 okf = fr[2][0] == ("bin", "//", ("call", "builtins.len", (content,), ()), ("bin", "+", npart, C(9)))
